@@ -2,6 +2,7 @@ import PnVerif.Lemmas.ToolsSound
 import PnVerif.Lemmas.ToolsRepaired
 import PnVerif.Lemmas.ToolsDiff
 import PnVerif.Lemmas.ToolsPartition
+import PnVerif.Lemmas.ToolsChunk
 import PnVerif.Lemmas.Accept
 import PnVerif.Props.C04
 /-
@@ -438,6 +439,35 @@ theorem ncmpidiff_multirank_verdict (nprocs : Nat) (hn : 1 ≤ nprocs) (shape : 
     (∃ idx, inShape idx shape = true ∧ d idx = true) :=
   multirank_verdict nprocs hn shape d
 
+/-! ## cdfdiff's chunk loop -/
+
+/-- `cdfdiff_chunking_irrelevant`: for EVERY chunk size > 0 (READ_CHUNK_SIZE is 4 MiB), every two files, offsets and
+    sizes, the loop that reads min(remaining, chunk) bytes per step from both files decides exactly "the two byte
+    ranges are equal" — also when a file ends early (short reads). -/
+theorem cdfdiff_chunking_irrelevant (chunk : Nat) (hc : 0 < chunk) (f1 f2 : Bytes) (off1 off2 n : Nat) :
+    cdfdiffRecordSame chunk f1 f2 off1 off2 n = (rdAt f1 off1 n == rdAt f2 off2 n) :=
+  chunking_irrelevant chunk hc f1 f2 off1 off2 n
+
+/-- so the chunked loop on record r of a variable is the comparison `v.data r == w.data r` of `toolDiff`
+    (`recsSame`), for variables of any size: `diff_layout_invariant`, `diff_iff_logical_eq_partial` and the
+    `diff_detects_*` theorems, stated for `toolDiff`, hold for the chunked cdfdiff. -/
+theorem cdfdiff_chunking_matches_toolDiff (chunk : Nat) (hc : 0 < chunk) (h1 h2 : Hdr) (rs1 rs2 : Nat) (f1 f2 : Bytes)
+    (i j : Nat) (v w : Var) (lv lw : LVar) (r : Nat) (hv : h1.vars[i]? = some v) (hw : h2.vars[j]? = some w)
+    (hlv : (absFile h1 rs1 f1).vars[i]? = some lv) (hlw : (absFile h2 rs2 f2).vars[j]? = some lw)
+    (hn : varBytes v.xtype.size (lv.dims.map (·.size)) = varBytes w.xtype.size (lw.dims.map (·.size))) :
+    cdfdiffRecordSame chunk f1 f2 (v.begin + (if lv.isRec then rs1 else 0) * r) (w.begin + (if lw.isRec then rs2 else 0) * r)
+      (varBytes v.xtype.size (lv.dims.map (·.size))) = (lv.data r == lw.data r) := by
+  rw [chunking_irrelevant chunk hc]
+  unfold absFile at hlv hlw
+  simp only [List.getElem?_map, hv, hw, Option.map_some, Option.some.injEq] at hlv hlw
+  subst hlv hlw
+  simp only [] at hn ⊢
+  rw [← hn]
+
+example : cdfdiffRecordSame 4 [1, 2, 3, 4, 5, 6, 7, 9, 9] [0, 1, 2, 3, 4, 5, 6, 7, 8] 0 1 7 = true ∧
+    cdfdiffRecordSame 4 [1, 2, 3, 4, 5, 6, 7, 9, 9] [0, 1, 2, 3, 4, 5, 6, 7, 8] 0 1 8 = false ∧
+    cdfdiffRecordSame 3 [1, 2, 3, 4] [1, 2, 3, 4, 5] 0 0 5 = false := by decide
+
 /-! ## ncoffsets -r -/
 
 /-- `offsets_records_are_layout`: the r-th (start, end) pair `ncoffsets -r` prints for a record variable is the
@@ -479,6 +509,7 @@ def obligations : List String := [
   "cdfdiff_repaired_iff_logical_eq", "ncmpidiff_repaired_iff_logical_eq",
   "ncmpidiff_partition_covers", "ncmpidiff_block_inside", "ncmpidiff_every_element_compared", "ncmpidiff_multirank_verdict",
   "offsets_records_are_layout", "offsets_recsize_packing",
+  "cdfdiff_chunking_irrelevant", "cdfdiff_chunking_matches_toolDiff",
   "diff_refl", "diff_complete", "diff_iff_logical_eq_counterexample_cdfdiff", "diff_iff_logical_eq_counterexample_ncmpidiff",
   "diff_iff_logical_eq_partial", "cdfdiff_iff_logical_eq", "diff_symm_counterexample_cdfdiff", "diff_symm_partial",
   "diff_layout_invariant", "diff_layout_invariant_shift", "diff_detects_value_edit", "diff_detects_attribute_edit",
